@@ -454,10 +454,14 @@ def mon_Z(line, out):
     by_count = sum(a * b for a, b in zip(w, errs)) / n
     by_weight = sum(a * b for a, b in zip(w, errs)) / sum(w)
     unweighted = Fraction(sum(errs), n)
-    if z not in (by_count, by_weight):
-        return [("Z:weight-index", "ZeroOneLoss<unsigned int,RealVector>::eval(targets, predictions, weights) batches=%s labels=%s predictions=%s threshold=%s weights=%s returns %s; per-element errors %s give sum(w*e)/n = %s (sum(w*e)/sum(w) = %s): the weight vector is indexed by batch number, not by element" % (
-            s[1], s[2], s[3], hd[2], s[4], float(z), errs, float(by_count), float(by_weight)))]
-    if len(set(w)) == 1 and z != unweighted:
+    # the weighted mean error sum(w*e)/sum(w) (the convention of WeightedErrorFunction: equal weights reproduce the
+    # unweighted value); numerator and denominator are exact in double for the generated dyadic weights, so the
+    # implementation's value is the correctly rounded quotient (one ulp of slack)
+    rounded = lambda q: abs(z - q) <= Fraction(1, 2 ** 52) * abs(q)
+    if not rounded(by_weight):
+        return [("Z:weight-index" if not rounded(by_count) else "Z:equal-weights", "ZeroOneLoss<unsigned int,RealVector>::eval(targets, predictions, weights) batches=%s labels=%s predictions=%s threshold=%s weights=%s returns %s; per-element errors %s give the weighted mean error sum(w*e)/sum(w) = %s (sum(w*e)/n = %s)" % (
+            s[1], s[2], s[3], hd[2], s[4], float(z), errs, float(by_weight), float(by_count)))]
+    if len(set(w)) == 1 and not rounded(unweighted):
         return [("Z:equal-weights", "ZeroOneLoss<unsigned int,RealVector>::eval(targets, predictions, weights) with all weights = %s returns %s, the unweighted mean error is %s (normalised by the number of elements instead of the weight sum)" % (w[0], float(z), float(unweighted)))]
     return []
 
